@@ -4,14 +4,13 @@ use crate::support::*;
 use educe::Educe;
 use core::cmp::Ordering;
 #[derive(Educe)]
-#[repr(i32)]
-#[educe(Ord, Eq, PartialOrd, PartialEq)]
-pub enum T { None(bool, i64, #[educe(PartialOrd(rank = "8"))] ()) = 200, B { data: u8, f: i64 }, A() = -1, C { #[educe(PartialOrd(rank = 8i64))] r#type: Option<u8>, y: &'static u8 } = -5 }
+#[educe(PartialEq, Eq, PartialOrd)]
+pub enum T { A, None, V1 { #[educe(PartialOrd(rank = 1))] state: bool }, Zed }
 
-pub fn values() -> Vec<T> { vec![T::None(false, -5, ()), T::None(false, 0, ()), T::None(false, 9, ()), T::None(true, -5, ()), T::None(true, 0, ()), T::None(true, 9, ()), T::B { data: 0, f: -5 }, T::B { data: 0, f: 0 }, T::B { data: 0, f: 9 }, T::B { data: 100, f: -5 }, T::B { data: 100, f: 0 }, T::B { data: 100, f: 9 }, T::B { data: 200, f: -5 }, T::B { data: 200, f: 0 }, T::B { data: 200, f: 9 }, T::A(), T::C { r#type: None, y: &3u8 }, T::C { r#type: None, y: &200u8 }, T::C { r#type: Some(0), y: &3u8 }, T::C { r#type: Some(0), y: &200u8 }, T::C { r#type: Some(255), y: &3u8 }, T::C { r#type: Some(255), y: &200u8 }] }
-pub fn show(x: &T) -> String { #[allow(unused_variables)] match x { T::None(p0, p1, p2) => format!("None({},{},{})", sv(p0), sv(p1), sv(p2)), T::B { data: p0, f: p1 } => format!("B({},{})", sv(p0), sv(p1)), T::A() => format!("A()"), T::C { r#type: p0, y: p1 } => format!("C({},{})", sv(p0), sv(p1)) } }
-pub fn o_disc(x: &T) -> i128 { match x { T::None(_, _, _) => 200, T::B { data: _, f: _ } => 201, T::A() => -1, T::C { r#type: _, y: _ } => -5 } }
-pub fn o_cmp(a: &T, b: &T) -> Ordering { match (a, b) { (T::None(a0, a1, a2), T::None(b0, b1, b2)) => { let c = ::core::cmp::Ord::cmp(a0, b0); if c != Ordering::Equal { return c; } let c = ::core::cmp::Ord::cmp(a1, b1); if c != Ordering::Equal { return c; } let c = ::core::cmp::Ord::cmp(a2, b2); if c != Ordering::Equal { return c; } Ordering::Equal }, (T::B { data: a0, f: a1 }, T::B { data: b0, f: b1 }) => { let c = ::core::cmp::Ord::cmp(a0, b0); if c != Ordering::Equal { return c; } let c = ::core::cmp::Ord::cmp(a1, b1); if c != Ordering::Equal { return c; } Ordering::Equal }, (T::A(), T::A()) => {  Ordering::Equal }, (T::C { r#type: a0, y: a1 }, T::C { r#type: b0, y: b1 }) => { let c = ::core::cmp::Ord::cmp(a1, b1); if c != Ordering::Equal { return c; } let c = ::core::cmp::Ord::cmp(a0, b0); if c != Ordering::Equal { return c; } Ordering::Equal }, _ => o_disc(a).cmp(&o_disc(b)) } }
+pub fn values() -> Vec<T> { vec![T::A, T::None, T::V1 { state: false }, T::V1 { state: true }, T::Zed] }
+pub fn show(x: &T) -> String { #[allow(unused_variables)] match x { T::A => format!("A()"), T::None => format!("None()"), T::V1 { state: p0 } => format!("V1({})", sv(p0)), T::Zed => format!("Zed()") } }
+pub fn o_disc(x: &T) -> i128 { match x { T::A => 0, T::None => 1, T::V1 { state: _ } => 2, T::Zed => 3 } }
+pub fn o_pcmp(a: &T, b: &T) -> Option<Ordering> { match (a, b) { (T::A, T::A) => {  Some(Ordering::Equal) }, (T::None, T::None) => {  Some(Ordering::Equal) }, (T::V1 { state: a0 }, T::V1 { state: b0 }) => { match ::core::cmp::PartialOrd::partial_cmp(a0, b0) { Some(Ordering::Equal) => (), x => return x } Some(Ordering::Equal) }, (T::Zed, T::Zed) => {  Some(Ordering::Equal) }, _ => Some(o_disc(a).cmp(&o_disc(b))) } }
 #[repr(C)] pub struct Wrap { pub pre: u8, pub x: T, pub post: [u8; 9] }
 pub fn wrap(i: usize, n: u8) -> Wrap { Wrap { pre: n, x: values().swap_remove(i), post: [n; 9] } }
-pub fn run(out: &mut Out) { let vs = values(); for (i, a) in vs.iter().enumerate() { for (j, b) in vs.iter().enumerate() { let e = o_cmp(a, b); let g = ::core::cmp::Ord::cmp(a, b); out.check(g == e, "ordlayout_5", "cmp", || format!("cmp({}, {}) = {:?} expected {:?}", show(a), show(b), g, e)); let g2 = ::core::cmp::PartialOrd::partial_cmp(a, b); out.check(g2 == Some(e), "ordlayout_5", "partial_is_some_cmp", || format!("partial_cmp({}, {}) = {:?} expected Some({:?})", show(a), show(b), g2, e)); for n in [0u8, 1, 0x7f, 0x80, 0xff] { let wa = wrap(i, n); let wb = wrap(j, !n); let g = ::core::cmp::Ord::cmp(&wa.x, &wb.x); let e = o_cmp(a, b); out.check(g == e, "ordlayout_5", "cmp_neighbours", || format!("cmp({}, {}) with neighbour bytes {} = {:?} expected {:?}", show(a), show(b), n, g, e)); } } } }
+pub fn run(out: &mut Out) { let vs = values(); for (i, a) in vs.iter().enumerate() { for (j, b) in vs.iter().enumerate() { let e = o_pcmp(a, b); let g = ::core::cmp::PartialOrd::partial_cmp(a, b); out.check(g == e, "ordlayout_5", "partial_cmp", || format!("partial_cmp({}, {}) = {:?} expected {:?}", show(a), show(b), g, e)); for n in [0u8, 1, 0x7f, 0x80, 0xff] { let wa = wrap(i, n); let wb = wrap(j, !n); let g = ::core::cmp::PartialOrd::partial_cmp(&wa.x, &wb.x); let e = o_pcmp(a, b); out.check(g == e, "ordlayout_5", "cmp_neighbours", || format!("cmp({}, {}) with neighbour bytes {} = {:?} expected {:?}", show(a), show(b), n, g, e)); } } } }
